@@ -37,7 +37,7 @@ fn exec_steps(u: &mut Unstructured, depth: u32) -> Result<Vec<ExecStep>> {
     let n = u.int_in_range(0..=3usize)?;
     let mut v = vec![];
     for _ in 0..n {
-        let hi = if depth > 0 { 12 } else { 11 };
+        let hi = if depth > 0 { 13 } else { 12 };
         v.push(match u.int_in_range(0..=hi as u8)? {
             0 => {
                 let k = u.int_in_range(1..=3usize)?;
@@ -54,6 +54,7 @@ fn exec_steps(u: &mut Unstructured, depth: u32) -> Result<Vec<ExecStep>> {
             9 => ExecStep::OtherWorld,
             10 => ExecStep::LazyCreateWith(u.int_in_range(0..=7)?, u.int_in_range(1..=999)?),
             11 => ExecStep::Chain(u.int_in_range(1..=140)?),
+            12 => ExecStep::MaintainInside,
             _ => ExecStep::Nested(exec_steps(u, depth - 1)?),
         });
     }
